@@ -36,7 +36,9 @@ def parse_us(s: str) -> Optional[int]:
     return (d - EPOCH) // dt.timedelta(microseconds=1)
 
 
-def solve(fml: Any, timeout_ms: int = 30_000) -> tuple[str, float, Any]:
+def solve(fml: Any, timeout_ms: int = 20_000) -> tuple[str, float, Any]:
+    if time.time() > DEADLINE[0]:
+        return "unknown", 0.0, None          # wall-clock budget of the whole check is used up: no more queries
     s = z3.Solver()
     s.set("timeout", timeout_ms)
     s.add(fml)
@@ -79,9 +81,12 @@ class Enc:
         self.src_utils = open(core.repo_file(UTILS)).read()
         self.src_pvtel = open(core.repo_file(PVTEL)).read()
 
+    uses_tz = False
+
     def to_pv(self, ctx: fp.Ctx, n: P.SInt) -> P.SPVStr:
         it = P.Interp(self.src_utils, ctx)
         r = it.call("unix_nano_to_pv_string", [n])
+        Enc.uses_tz = Enc.uses_tz or it.uses_tz
         if not isinstance(r, P.SPVStr):
             raise P.NotEncodable("unix_nano_to_pv_string does not return a timestamp string")
         return r
@@ -89,11 +94,13 @@ class Enc:
     def to_ns(self, ctx: fp.Ctx, s: P.SPVStr) -> P.SInt:
         it = P.Interp(self.src_pvtel, ctx)
         r = it.call("convert_timestamp_to_unix_nano", [s])
+        Enc.uses_tz = Enc.uses_tz or it.uses_tz
         if not isinstance(r, P.SInt):
             raise P.NotEncodable("convert_timestamp_to_unix_nano does not return an int")
         return r
 
 
+DEADLINE = [float('inf')]
 TZ = [0]   # process time zone offset (seconds east) under which the real functions are replayed
 
 
@@ -141,11 +148,21 @@ def run(tier: str) -> int:
     ]
     chk.explanation = ("py2smt translation of the two converters; negated property unsat per input binade; "
                        "sat-twins guard against vacuity; interval annotations of every float case are proved")
+    DEADLINE[0] = time.time() + (480 if tier == "quick" else 3000)
     try:
+        Enc.uses_tz = False
         enc = Enc()
         _run(chk, enc, tier)
     except P.NotEncodable as e:
         chk.unknown("encode", "py2smt", 0.0, f"construct not encodable: {e}")
+    except TooManyUnknowns:
+        chk.inconclusive.append("stopped after 4 solver time-outs: remaining queries not asked")
+    if Enc.uses_tz and not chk.violations:
+        # the converters went through naive local-time operations: the queries above quantify over every FIXED-offset
+        # process time zone only; zones with DST transitions (folds/gaps) are not modelled, so this is not a verdict
+        chk.unknown("time-zone-dependence", "py2smt", 0.0,
+                    "the code interprets naive datetimes in the process time zone; held for every fixed offset, "
+                    "but DST transitions are not modelled")
     return chk.finish()
 
 
@@ -189,16 +206,40 @@ def _fields_faithful(chk: core.Check, s: P.SPVStr, name: str) -> bool:
     return False
 
 
+class TooManyUnknowns(Exception):
+    pass
+
+
 def _run(chk: core.Check, enc: Enc, tier: str) -> None:
     k = z3.Int("k")
     rng = random.Random(chk.seed)
+    # a mutated converter can make every query hard; after a few solver time-outs the run stops being informative
+    orig_unknown = chk.unknown
+    count = [0]
+
+    def unknown(name: str, engine: str, seconds: float, why: str, **detail: Any) -> None:
+        orig_unknown(name, engine, seconds, why, **detail)
+        if "solver answered unknown" in why or "query answered unknown" in why:
+            count[0] += 1
+            if count[0] >= 3 and not skip[0]:
+                skip[0] = True
+                chk.inconclusive.append("3 solver time-outs in this phase: its remaining queries were not asked")
+    chk.unknown = unknown  # type: ignore[method-assign]
+    skip = [False]
+
+    def new_phase() -> None:
+        count[0] = 0
+        skip[0] = False
 
     # ---------------- (a) forward: to_pv(1000k) denotes k -------------------
     parts = int_partitions(0, 1000 * K_MAX)
     fwd_ok = True
     validated = 0
     sample_done = False
+    new_phase()
     for (lo, hi) in parts:
+        if skip[0]:
+            break
         klo, khi = -(-lo // 1000), hi // 1000
         if klo > khi:
             continue
@@ -268,19 +309,29 @@ def _run(chk: core.Check, enc: Enc, tier: str) -> None:
     n1, n2 = z3.Int("n1"), z3.Int("n2")
     nparts = int_partitions(0, 1000 * K_MAX)
     if fwd_ok:
-        nearest: list[bool] = []
+        nearest: dict[int, bool] = {i: False for i in range(len(nparts))}
         lemma_ds: set[int] = set()
-        for (lo1, hi1) in nparts:
+        new_phase()
+        for pi_ in reversed(range(len(nparts))):      # present-day magnitudes first
+            lo1, hi1 = nparts[pi_]
+            if skip[0]:
+                continue
             ctx = fp.Ctx()
             s1 = enc.to_pv(ctx, P.SInt([(z3.And(n1 >= lo1, n1 <= hi1), n1, lo1, hi1)]))
             nm = f"b1.nearest-us[n in 2^{lo1.bit_length()-1 if lo1 else 0}]"
             bad = z3.Or([z3.And(g, z3.Or(1000 * t - n1 > 500, n1 - 1000 * t > 500)) for g, t, _, _ in s1.us.cases])
-            r, secs, m = solve(bad, 60_000)
-            nearest.append(r == "unsat")
+            r, secs, m = solve(bad, 20_000)
+            nearest[pi_] = (r == "unsat")
+            if r == "unknown":
+                chk.unknown(nm, "z3", secs, "solver answered unknown")
             if r == "unsat":
                 chk.held(nm, "z3", secs, cases=len(s1.us.cases))
-        chk.extra["b1_nearest_us_binades"] = sum(nearest)
-        for i, (lo1, hi1) in enumerate(nparts):
+        chk.extra["b1_nearest_us_binades"] = sum(nearest.values())
+        new_phase()
+        for i in reversed(range(len(nparts))):
+            lo1, hi1 = nparts[i]
+            if skip[0]:
+                break
             for j in (i, i + 1):
                 if j >= len(nparts) or (nearest[i] and nearest[j]):
                     continue
@@ -316,7 +367,10 @@ def _run(chk: core.Check, enc: Enc, tier: str) -> None:
 
     # ---------------- (c) backward and (d) round trip -----------------------
     back_ok = True
+    new_phase()
     for (klo, khi) in int_partitions(0, K_MAX):
+        if skip[0]:
+            break
         ctx = fp.Ctx()
         base = z3.And(k >= klo, k <= khi)
         s_in = P.SPVStr(P.SInt([(base, k, klo, khi)]), P.FULL_FIELDS, True, True)
